@@ -29,4 +29,18 @@ fact("float32 array + python float stays float32 (NEP 50)", (a + 0.5).dtype == n
 rgb = np.zeros((2, 3, 4), dtype=[("R", "u1"), ("G", "u1"), ("B", "u1")])
 fact("structured array field access gives a view of the field", rgb["G"].shape == (2, 3, 4) and rgb["G"].base is not None)
 fact("np.stack(axis=-1) adds a trailing axis", np.stack([rgb["R"], rgb["G"], rgb["B"]], axis=-1).shape == (2, 3, 4, 3))
+# nibabel ArrayProxy: .dtype is the on-disk type; indexing gives the on-disk type for slope 1 / inter 0, float64 otherwise
+import struct
+import nibabel as nib
+for dt in ("uint8", "int16", "uint16", "int32", "uint32", "float32", "float64"):
+    for slope, inter in ((1.0, 0.0), (2.0, 1.0), (1.0, 5.0), (0.5, 0.0)):
+        p = os.path.join(td, "a.nii")
+        nib.save(nib.Nifti1Image(np.zeros((2, 2, 2), dtype=dt), np.eye(4)), p)
+        b = bytearray(open(p, "rb").read())
+        b[112:120] = struct.pack("<ff", slope, inter)
+        open(p, "wb").write(b)
+        pr = nib.load(p).dataobj
+        want = dt if (slope, inter) == (1.0, 0.0) else "float64"
+        fact(f"nibabel proxy {dt} slope={slope} inter={inter}: .dtype on disk, indexed value {want}",
+             pr.dtype == np.dtype(dt) and pr[(0, 0, 0)].dtype == np.dtype(want) and (pr.slope, pr.inter) == (slope, inter))
 sys.exit(1 if bad else 0)
